@@ -1202,27 +1202,45 @@ def run_real(scenario, ops, pre_ops, faults, tags, d, compute_hook=None):
 
 # ---------------------------------------------------------------------------
 class Decider:
-    """log.decide with one replay per violation key: the first counterexample of every key is replayed
-    against the real code; later counterexamples with a key that has already been replayed and
-    confirmed are recorded as `sat` obligations (and counted in a note) without their own replay."""
+    """log.decide with a bounded number of replays per violation key: the first counterexample of every
+    key is replayed against the real code; later counterexamples under a key that has already been
+    replayed and confirmed are recorded as `sat` obligations (counted in a note) without their own
+    replay; a key whose counterexamples failed to reproduce `max_unreproduced` times is not replayed
+    any further either (each further one is recorded as inconclusive, never as a pass)."""
 
-    def __init__(self, log):
+    def __init__(self, log, max_unreproduced=2):
         self.log = log
         self.confirmed = {}
+        self.failed = {}
+        self.max_unreproduced = max_unreproduced
 
     def __call__(self, v, key, replay=None, **kw):
         log = self.log
-        if v.holds or key not in self.confirmed:
-            ok = log.decide(v, key=key, replay=replay, **kw)
-            if not ok and any(x["key"] == key for x in log.violations):
-                self.confirmed[key] = 0
-            return ok
-        self.confirmed[key] += 1
-        log.obligations.append({"case": log.case, "what": v.what, "status": v.status, "time_s": round(v.time, 4), "residual_terms": v.nterms,
-                                "note": "same key as an already replayed violation"})
-        return False
+        if v.holds:
+            return log.decide(v, key=key, replay=replay, **kw)
+        rec = {"case": log.case, "what": v.what, "status": v.status, "time_s": round(v.time, 4), "residual_terms": v.nterms}
+        if key in self.confirmed:
+            self.confirmed[key] += 1
+            log.obligations.append(dict(rec, note="same key as an already replayed violation"))
+            return False
+        if self.failed.get(key, 0) >= self.max_unreproduced:
+            self.failed[key] += 1
+            log.obligations.append(dict(rec, note="not replayed: earlier counterexamples of this key did not reproduce"))
+            if self.failed[key] == self.max_unreproduced + 1:
+                log.inconclusive.append("%s/%s: solver answered %s; further counterexamples under key %s are not replayed (the first %d did not reproduce)"
+                                        % (log.case, v.what, v.status, key, self.max_unreproduced))
+            return False
+        ok = log.decide(v, key=key, replay=replay, **kw)
+        if any(x["key"] == key for x in log.violations):
+            self.confirmed[key] = 0
+        else:
+            self.failed[key] = self.failed.get(key, 0) + 1
+        return ok
 
     def finish(self):
         for k, n in self.confirmed.items():
             if n:
                 self.log.notes.append("%d further counterexamples under key %s (first one replayed, these not individually)" % (n, k))
+        for k, n in self.failed.items():
+            if n > self.max_unreproduced:
+                self.log.notes.append("%d counterexamples under key %s were not replayed after %d failed reproductions" % (n - self.max_unreproduced, k, self.max_unreproduced))
